@@ -55,14 +55,14 @@ type censusHit struct {
 }
 
 type report struct {
-	Sites     int         `json:"sites"`
-	Yields    int         `json:"yields"`
-	MapRanges []string    `json:"map_ranges"`
-	WeakSites []string    `json:"weak_sites"`
-	Census    []censusHit `json:"census"`
-	Files     int         `json:"files"`
-	ClockSites int        `json:"clock_sites"` // time.Now/Since/Until/Sleep calls put behind the simulated clock
-	RandSites  int        `json:"rand_sites"`  // math/rand package-level calls put behind the simulated source
+	Sites      int         `json:"sites"`
+	Yields     int         `json:"yields"`
+	MapRanges  []string    `json:"map_ranges"`
+	WeakSites  []string    `json:"weak_sites"`
+	Census     []censusHit `json:"census"`
+	Files      int         `json:"files"`
+	ClockSites int         `json:"clock_sites"` // time.Now/Since/Until/Sleep calls put behind the simulated clock
+	RandSites  int         `json:"rand_sites"`  // math/rand package-level calls put behind the simulated source
 }
 
 var (
@@ -337,6 +337,11 @@ func instrumentFile(p *packages.Package, f *ast.File, fn string, pristine bool) 
 							}
 						case "math/rand/v2", "crypto/rand":
 							census(n, "nondeterminism", path+"."+sel.Sel.Name)
+						case "runtime":
+							switch sel.Sel.Name {
+							case "GOMAXPROCS", "NumCPU", "NumGoroutine":
+								census(n, "nondeterminism", "runtime."+sel.Sel.Name)
+							}
 						case "os":
 							switch sel.Sel.Name {
 							case "Getenv", "LookupEnv", "Environ", "Getpid", "Hostname":
